@@ -24,6 +24,7 @@ def run(ck):
                for b in range(0, n, batch)]
     incr.check_histories_parallel(ck, d, batches, ('C02',))
     incr.flush(ck)
+    vf.sh(['rm', '-rf', d])
 
 
 def replay(ck, path):
